@@ -5,7 +5,7 @@ pub mod anchor_handlers {
 use vstd::prelude::*;
 use crate::errors::ErrorCode;
 use crate::specs::*;
-use crate::anchor_shim::{Pubkey, Error, Result, err, ax_qmark_anchor};
+use crate::anchor_shim::{Pubkey, Error, Result, err, ax_qmark_anchor, SKey};
 use crate::authority::{authority_rule, copt, verify_position_authority, verify_position_authority_interface, InterfaceAccount, TokenAccount, TokenAccountInterface, Signer, AccountInfo};
 use crate::state_core::{Whirlpool, WhirlpoolRewardInfo, Position, NUM_REWARDS};
 use crate::position_rules::{LockConfig, LockType, LockTypeLabel, PositionBundle, range_valid, bundle_open};
@@ -39,6 +39,7 @@ pub fn burn_and_close_user_position_token<'info>(token_authority: &Signer<'info>
 
 // ------------------------------------------------------------------ close_position
 //@ struct instructions/close_position.rs ClosePosition
+//@ constraints instructions/close_position.rs ClosePosition
 /// C18 / C04: a position is closed only on its authority's signature and only when it holds no liquidity, no owed fees and no owed rewards
 //@ fn instructions/close_position.rs handler -> r as=close_position_handler tags=C18,C04
     ensures
@@ -48,8 +49,34 @@ pub fn burn_and_close_user_position_token<'info>(token_authority: &Signer<'info>
         r is Ok ==> burned_by_cpi(old(ctx.accounts).position_token_account.k), //# C18
 //@ end
 
+// ------------------------------------------------------------------ reset_position_range
+//@ assume ensure_position_has_enough_rent_for_ticks (Rent sysvar, system-program transfer CPI from the funder) is an external stub
+#[verifier::external_body]
+fn ensure_position_has_enough_rent_for_ticks<'info>(funder: &Signer<'info>, position: &Account<'info, Position>, system_program: &Program<'info, System>) -> (r: Result<()>) { unimplemented!() }
+//@ struct instructions/reset_position_range.rs ResetPositionRange
+//@ constraints instructions/reset_position_range.rs ResetPositionRange
+/// C18 / C04: a position is re-ranged only on the signature of the holder of ITS token (one token of the position's own mint), only when empty, only to a
+/// different range that is valid for the position's OWN pool (the pool account passed is the one the position belongs to), with its growth checkpoints reset
+//@ fn instructions/reset_position_range.rs handler -> r as=reset_position_range_handler tags=C18,C04 canary
+    requires constraints_ResetPositionRange(old(ctx.accounts)), old(ctx.accounts).whirlpool.data.tick_spacing > 0,
+    ensures
+        r is Ok ==> authority_rule(old(ctx.accounts).position_token_account.data.owner, copt(old(ctx.accounts).position_token_account.data.delegate), old(ctx.accounts).position_token_account.data.delegated_amount,
+            *old(ctx.accounts).position_authority.info.key, old(ctx.accounts).position_authority.info.is_signer), //# C04
+        r is Ok ==> old(ctx.accounts).position_token_account.data.mint == old(ctx.accounts).position.data.position_mint && old(ctx.accounts).position_token_account.data.amount == 1, //# C04
+        r is Ok ==> old(ctx.accounts).position.data.whirlpool == old(ctx.accounts).whirlpool.k, //# C18
+        r is Ok ==> old(ctx.accounts).position.data.empty()
+            && !(new_tick_lower_index == old(ctx.accounts).position.data.tick_lower_index && new_tick_upper_index == old(ctx.accounts).position.data.tick_upper_index)
+            && range_valid(new_tick_lower_index as int, new_tick_upper_index as int, old(ctx.accounts).whirlpool.data.tick_spacing as int), //# C18
+        r is Ok ==> final(ctx.accounts).position.data.tick_lower_index == new_tick_lower_index && final(ctx.accounts).position.data.tick_upper_index == new_tick_upper_index
+            && final(ctx.accounts).position.data.fee_growth_checkpoint_a == 0 && final(ctx.accounts).position.data.fee_growth_checkpoint_b == 0
+            && (forall|k: int| 0 <= k < 3 ==> (#[trigger] final(ctx.accounts).position.data.reward_infos[k]).growth_inside_checkpoint == 0)
+            && final(ctx.accounts).position.data.whirlpool == old(ctx.accounts).position.data.whirlpool && final(ctx.accounts).position.data.position_mint == old(ctx.accounts).position.data.position_mint, //# C18
+        final(ctx.accounts).whirlpool == old(ctx.accounts).whirlpool,
+//@ end
+
 // ------------------------------------------------------------------ collect_fees
 //@ struct instructions/collect_fees.rs CollectFees
+//@ constraints instructions/collect_fees.rs CollectFees
 /// C07 / C01 / C04: on the authority's signature exactly the owed fees are paid from the pool's vaults to the owner's accounts and the owed amounts are reset to
 /// zero (everything else in the position is unchanged)
 //@ fn instructions/collect_fees.rs handler -> r as=collect_fees_handler tags=C04,C07,C01,C06
@@ -65,6 +92,7 @@ pub fn burn_and_close_user_position_token<'info>(token_authority: &Signer<'info>
 //@ assume WhirlpoolsConfig is an opaque placeholder in this fragment (the collect_protocol_fees handler does not read it; its authority check is an #[account(address = ..)] attribute)
 pub struct WhirlpoolsConfig { pub x: u8 }
 //@ struct instructions/collect_protocol_fees.rs CollectProtocolFees
+//@ constraints instructions/collect_protocol_fees.rs CollectProtocolFees
 /// C06: exactly the protocol's accumulated share is paid out from the two vaults and the counters are reset (nothing else in the pool changes)
 //@ fn instructions/collect_protocol_fees.rs handler -> r as=collect_protocol_fees_handler tags=C06,C01
     ensures
@@ -77,6 +105,7 @@ pub struct WhirlpoolsConfig { pub x: u8 }
 #[verifier::external_body]
 pub fn position_seeds_shim() -> (r: &'static [&'static [u8]]) { unimplemented!() }
 //@ struct instructions/lock_position.rs LockPosition
+//@ constraints instructions/lock_position.rs LockPosition method:is_frozen
 /// C18 / C04: only a position WITH LIQUIDITY can be locked (so that a locked position can never become empty and hence never be closed or re-ranged), on its
 /// authority's signature; locking freezes the position token account and records position, owner and pool in the lock config
 //@ fn instructions/lock_position.rs handler -> r as=lock_position_handler tags=C18,C04
@@ -94,7 +123,9 @@ pub fn position_seeds_shim() -> (r: &'static [&'static [u8]]) { unimplemented!()
 // ------------------------------------------------------------------ set_reward_emissions (v1, v2)
 //@ const instructions/set_reward_emissions.rs pub DAY_IN_SECONDS
 //@ struct instructions/set_reward_emissions.rs SetRewardEmissions
+//@ constraints instructions/set_reward_emissions.rs SetRewardEmissions method:reward_authority
 //@ struct instructions/v2/set_reward_emissions.rs SetRewardEmissionsV2
+//@ constraints instructions/v2/set_reward_emissions.rs SetRewardEmissionsV2 method:reward_authority
 /// C11: the vault must hold at least one day of the new emissions; every reward is first settled up to now with its OLD rate (growths per next_growth, shared
 /// clock = now), then the indexed reward takes the new rate
 pub open spec fn set_emissions_post(w0: Whirlpool, w1: Whirlpool, vault_amount: u64, reward_index: u8, rate: u128) -> bool {
@@ -114,6 +145,7 @@ pub open spec fn set_emissions_post(w0: Whirlpool, w1: Whirlpool, vault_amount: 
 
 // ------------------------------------------------------------------ collect_reward
 //@ struct instructions/collect_reward.rs CollectReward
+//@ constraints instructions/collect_reward.rs CollectReward
 /// C11 / C04: on the authority's signature min(owed, vault balance) of the indexed reward is paid from the reward vault and the rest stays owed
 //@ fn instructions/collect_reward.rs handler -> r as=collect_reward_handler tags=C11,C04
     requires reward_index < 3, // an index above 2 panics on the array access (the transaction fails)
@@ -158,6 +190,7 @@ pub open spec fn opened_ok(w: Account<'_, Whirlpool>, mint: Pubkey, lo_in: i32, 
     &&& p1.whirlpool == w.k && p1.position_mint == mint
 }
 //@ struct instructions/open_position.rs OpenPosition
+//@ constraints instructions/open_position.rs OpenPosition
 //@ fn instructions/open_position.rs handler -> r as=open_position_handler tags=C18
     requires old(ctx.accounts).whirlpool.data.tick_spacing > 0, price_ok(old(ctx.accounts).whirlpool.data.sqrt_price as int),
     ensures
@@ -167,6 +200,7 @@ pub open spec fn opened_ok(w: Account<'_, Whirlpool>, mint: Pubkey, lo_in: i32, 
 //@ rewrite /emit!\(PositionOpened \{/ => /emit_position_opened(PositionOpened {/
 //@ end
 //@ struct instructions/open_bundled_position.rs OpenBundledPosition
+//@ constraints instructions/open_bundled_position.rs OpenBundledPosition
 //@ fn instructions/open_bundled_position.rs handler -> r as=open_bundled_position_handler tags=C18
     requires old(ctx.accounts).whirlpool.data.tick_spacing > 0, price_ok(old(ctx.accounts).whirlpool.data.sqrt_price as int),
     ensures
@@ -189,6 +223,7 @@ pub mod transfer_memo {
 //@ subst /transfer_memo::(TRANSFER_MEMO_[A-Z_]+)\.as_bytes\(\)/ => /memo_bytes(transfer_memo::\1)/
 //@ subst /calculate_collect_reward\(\n/ => /calculate_collect_reward_v2(\n/
 //@ struct instructions/v2/collect_fees.rs CollectFeesV2
+//@ constraints instructions/v2/collect_fees.rs CollectFeesV2
 //@ fn instructions/v2/collect_fees.rs handler -> r as=collect_fees_v2_handler tags=C04,C07,C01,C06
     ensures
         r is Ok ==> authority_rule(old(ctx.accounts).position_token_account.data.owner, copt(old(ctx.accounts).position_token_account.data.delegate), old(ctx.accounts).position_token_account.data.delegated_amount,
@@ -198,6 +233,7 @@ pub mod transfer_memo {
             && moved(*old(ctx.accounts).token_vault_b.info.key, *old(ctx.accounts).token_owner_account_b.info.key, old(ctx.accounts).position.data.fee_owed_b), //# C07 C01 C06
 //@ end
 //@ struct instructions/v2/collect_protocol_fees.rs CollectProtocolFeesV2
+//@ constraints instructions/v2/collect_protocol_fees.rs CollectProtocolFeesV2
 //@ fn instructions/v2/collect_protocol_fees.rs handler -> r as=collect_protocol_fees_v2_handler tags=C06,C01
     ensures
         r is Ok ==> final(ctx.accounts).whirlpool.data == (Whirlpool { protocol_fee_owed_a: 0, protocol_fee_owed_b: 0, ..old(ctx.accounts).whirlpool.data }),
@@ -205,6 +241,7 @@ pub mod transfer_memo {
             && moved(*old(ctx.accounts).token_vault_b.info.key, *old(ctx.accounts).token_destination_b.info.key, old(ctx.accounts).whirlpool.data.protocol_fee_owed_b),
 //@ end
 //@ struct instructions/v2/collect_reward.rs CollectRewardV2
+//@ constraints instructions/v2/collect_reward.rs CollectRewardV2
 //@ fn instructions/v2/collect_reward.rs handler -> r as=collect_reward_v2_handler tags=C11,C04
     requires reward_index < 3,
     ensures
@@ -235,6 +272,7 @@ impl LoadedTickArray { pub fn deref(&self) -> (r: &TA) ensures *r == self.ta { &
 #[verifier::external_body]
 pub fn load_tick_array(account: &UncheckedAccount<'_>, whirlpool: &Pubkey) -> (r: Result<LoadedTickArray>) ensures r is Ok ==> ta_loaded(*account.k, *whirlpool) { unimplemented!() }
 //@ struct instructions/update_fees_and_rewards.rs UpdateFeesAndRewards
+//@ constraints instructions/update_fees_and_rewards.rs UpdateFeesAndRewards
 /// C07 / C11: the position's fee and reward checkpoints and owed amounts are refreshed by the zero-delta computation on the position's own bound ticks (read from
 /// tick arrays loaded against THIS pool), and the pool's reward growths are settled up to now; liquidity and everything else stay as they are
 //@ fn instructions/update_fees_and_rewards.rs handler -> r as=update_fees_and_rewards_handler tags=C07,C11,C15
